@@ -188,6 +188,23 @@ def build_unit(u, scr, workdir, tier, trace=False, common_replace=()):
     else:
         gbi = gb
         r.dfcc_log = ''
+    if u.get('restrict_fp'):
+        # CBMC resolves a call through a function pointer to every
+        # address-taken function of a compatible type; where the code under
+        # verification installs exactly one callback, the unit names it
+        # (stated in the unit table as an assumption).
+        gbr = os.path.join(workdir, name + '.r.gb')
+        cmd = ['goto-instrument']
+        for spec in u['restrict_fp']:
+            cmd += ['--restrict-function-pointer', spec]
+        cmd += [gbi, gbr]
+        rc, out, err, s = sh(cmd, 300)
+        r.cmds.append(' '.join(cmd))
+        if rc != 0 or not os.path.exists(gbr):
+            r.reason = 'goto-instrument (restrict-function-pointer) failed: ' \
+                + (err or out)[-1500:]
+            return r
+        gbi = gbr
     cmd = ['cbmc', gbi, '--json-ui'] + STD_FLAGS
     for f in u.get('no_flags', []):
         if f in cmd:
